@@ -505,3 +505,10 @@ _amend("C12", "level_note", "", "")
 PROPS["C12"]["level_note"] += " The canister's glue is part of this check: state::insert_block (unit core) is verified to admit a block only after BlockValidator::validate_block accepted it, whether or not its header had been announced before."
 PROPS["C03"]["unverified_links"] = [x for x in PROPS["C03"]["unverified_links"] if not x.startswith("stability threshold raised by set_config")] + [
     "the repo's `expect` on unstable_blocks::pop after an ingestion (no stable child any more, e.g. because set_config raised the stability threshold while the block was being ingested) ends the message: refuse mode, no longer a stated precondition"]
+
+_amend("C20", "level_note", "the CONTENT of the per-address delta lists (only their keys)",
+       "the content of the per-address REMOVED lists (the ADDED lists are verified: exactly the block's outputs paying the address, in block order)")
+_relink("C20", "content of added_outpoints / removed_outpoints per address",
+        "content of removed_outpoints per address (which spent outputs, resolved through cache / same block / UTXO set): only the key set is specified; the added_outpoints lists ARE specified (added_for)")
+_amend("C20", "level_text", "and records the block's two deltas under its hash,",
+       "and records the block's two deltas under its hash — the added delta of an address being exactly the block's outputs that pay it, in block order —,")
